@@ -1363,6 +1363,9 @@ func (fx *FnCtx) call(v *ssa.Call, c *ssa.CallCommon) {
 		fx.notes[fmt.Sprintf("ASSUMED at the call of %s in %s: %s (%s)", fc.Key, fx.key, cs.Req.Text, cs.Assumed)] = true
 	}
 	for i, r := range fc.Requires {
+		if r.Assumed != "" {
+			continue // representation invariant assumed by the callee's body, not checked here (listed)
+		}
 		env := mkEnv(st, pre)
 		t, err := env.elabBool(r.E)
 		if err != nil {
